@@ -781,7 +781,8 @@ class PhaseField(_IModel):
             tr_e_pg = Trace(matrix_e_pg)
 
             # Eigenvalue calculations [e,pg]
-            delta = tr_e_pg**2 - (4 * det_e_pg)
+            # = (e1 - e2)², negative only by round-off (equal eigenvalues)
+            delta = np.clip(tr_e_pg**2 - (4 * det_e_pg), 0, None)
 
             eigs_e_pg = FeArray.zeros(Ne, nPg, 2)
             eigs_e_pg[:, :, 0] = (tr_e_pg - np.sqrt(delta)) / 2
